@@ -26,10 +26,10 @@ func fmtPackageLock(ver int) *format {
 		pool: []rec{
 			{Name: "lodash", Version: "4.17.21", Tag: "plain"},
 			{Name: "@babel/core", Version: "7.23.0", Tag: "scoped"},
-			{Name: "wrappy", Version: "1.0.2", Tag: "wrappy-1"},
+			{Name: "wrappy", Version: "11.0.2", Tag: "wrappy-11"},
 			{Name: "wrappy", Version: "2.0.0-rc.1+build", Tag: "same-name-second-version"},
-			{Name: "a.b-c_d", Version: "0.0.1", Tag: "dots-hyphen-underscore"},
-			{Name: "JSONStream", Version: "1.3.5", Tag: "uppercase"},
+			{Name: "JSON.b-c_d", Version: "1.3.5", Tag: "uppercase-dots-hyphen-underscore"},
+			{Name: "wrappy1", Version: "1.0.2", Tag: "name+version-concat-equals-wrappy-11"},
 		},
 		dims: []dim{
 			{name: "eol", labels: eolLabels},
